@@ -86,6 +86,7 @@ HARMLESS = [
     ('C04', 'sc3/synth/synthdef.py', "        for p in params[skip_args:]:", "        used_params = params[skip_args:]\n        for p in used_params:", 'local for the parameters after the prepended ones'),
     ('C03', 'sc3/synth/ugen.py', "                l.append(getattr(gpp.ugen_param(item), selector)(*rest))", "                method = getattr(gpp.ugen_param(item), selector)\n                l.append(method(*rest))", 'local for the bound method in _multichannel_perform'),
     ('C04', 'sc3/synth/synthdef.py', "                    arguments[cn.arg_num] = ctrl_ugens[i]\n                    self._set_control_names(ctrl_ugens[i], cn)", "                    out = ctrl_ugens[i]\n                    arguments[cn.arg_num] = out\n                    self._set_control_names(out, cn)", 'local for the control output in the group helper'),
+    ('C17', 'sc3/synth/bus.py', "        self._server.addr.send_msg('/c_fill', self._index, channels, value)", "        index = self._index\n        self._server.addr.send_msg('/c_fill', index, channels, value)", 'local for the bus index in fill'),
 ]
 
 BREAKING = [
@@ -165,6 +166,9 @@ BREAKING = [
     ('C04', 'sc3/synth/synthdef.py', "                index = self._control_index\n                ctrl_ugens = getattr(ctrl_class, method)(utl.flat(values))", "                ctrl_ugens = getattr(ctrl_class, method)(utl.flat(values))\n                index = self._control_index", 'slot counter read after the control unit advanced it'),
     ('C04', 'sc3/synth/synthdef.py', "            if any(x != 0 for x in lags):", "            if not any(x != 0 for x in lags):", 'lagged controls created only when no lag is given'),
     ('C04', 'sc3/synth/synthdef.py', "                    index += len(utl.as_list(cn.default_value))\n                    arguments[cn.arg_num] = ctrl_ugens[i]\n                    self._set_control_names(ctrl_ugens[i], cn)\n\n        build_ita", "                    index += 1\n                    arguments[cn.arg_num] = ctrl_ugens[i]\n                    self._set_control_names(ctrl_ugens[i], cn)\n\n        build_ita", 'array defaults counted as one slot'),
+    ('C17', 'sc3/synth/node.py', "                time = -(time + 1)", "                time = -time", 'forced release time off by one'),
+    ('C17', 'sc3/synth/bus.py', "            action(msg[3:])", "            action(msg[2:])", 'bus getn hands the count over as a value'),
+    ('C17', 'sc3/synth/buffer.py', "            '/b_fill', self._bufnum, start, int(frames), *values)", "            '/b_fill', self._bufnum, int(frames), start, *values)", 'b_fill start and count swapped'),
 ]
 
 
